@@ -272,6 +272,13 @@ var c08 = gen.Register(&gen.Check[caseH2C]{
 	Required: []string{"length-grid", "dst>255", "dst=255", "dst=256", "dst-spare-capacity", "empty-dst", "fn:ro", "fn:nu", "u0:gx1square=false,signflip=true", "u1:gx1square=true,signflip=false"},
 })
 
+// The sequence checks run FIRST in their process (tests run in source order): their fixed cases include pairs of requests that a
+// bounded process-wide memo would confuse (checksum twins, shifted boundaries), and a memo that stops admitting entries after
+// the first few dozen requests of a process is only exposed to the requests that come first (seeded C08-n).
+func TestC08Sequence(t *testing.T) { c08seq.Execute(t) }
+
+func TestC09Sequence(t *testing.T) { c09seq.Execute(t) }
+
 func TestC08HashToCurve(t *testing.T) { c08.Execute(t) }
 
 var c09api = gen.Register(&gen.Check[caseH2C]{
@@ -391,6 +398,19 @@ func genH2CSeq(fns []string) func(t *rapid.T) caseH2CSeq {
 					msg[rapid.IntRange(0, len(msg)-1).Draw(t, "mpos")] ^= 0x55
 				}
 			}
+			if gen.Chance(t, "twins", 1, 5) {
+				// two consecutive calls whose DSTs (or messages) are CHECKSUM TWINS: same length, and equal under the CRC family and
+				// the xor folds at once, or under the additive checksums, or under 32-bit FNV (gen/twins.go). A memo that identifies
+				// a tag or a message by a standard checksum answers the second with what belongs to the first.
+				fn := rapid.SampledFrom(fns).Draw(t, "twFn")
+				a, b := twinSteps(fn, dst, msg, gen.Pick(t, "twKind", 4), rapid.Bool().Draw(t, "twOnMsg"), gen.U64(t, "twSalt"))
+				if a != nil {
+					c.Steps = append(c.Steps, *a, *b)
+					if rapid.Bool().Draw(t, "twAgain") {
+						c.Steps = append(c.Steps, *a)
+					}
+				}
+			}
 			if gen.Chance(t, "shiftedBoundary", 1, 6) {
 				// two consecutive calls whose DST_prime || msg concatenations are byte-for-byte EQUAL although (msg, DST) differ:
 				// DST2 = DST1 || len(DST1) || P and msg1 = P || len(DST2) || msg2. Only the RFC's framing (DST_prime LAST, with its
@@ -411,6 +431,69 @@ func genH2CSeq(fns []string) func(t *rapid.T) caseH2CSeq {
 		}
 		return c
 	}
+}
+
+// twinSteps returns two steps of fn whose DSTs (onMsg: messages) are checksum twins of kind 0 (CRC family + xor folds, difference in
+// the last 64 bytes), 1 (the same, difference in the first bytes), 2 (additive), 3 (FNV-32 / FNV-32a pair); nil if the string is too short.
+func twinSteps(fn string, dst, msg []byte, kind int, onMsg bool, salt uint64) (*h2cStep, *h2cStep) {
+	s := dst
+	if onMsg {
+		s = msg
+	}
+	var x, y []byte
+	switch kind {
+	case 0, 1:
+		lo, hi := 0, len(s)
+		if kind == 1 && len(s) > 64 {
+			hi = 64
+		}
+		if tw := gen.CRCTwins(s, lo, hi, 4); len(tw) > 0 {
+			x, y = s, tw[int(salt%uint64(len(tw)))]
+		}
+	case 2:
+		if tw := gen.AdditiveTwins(s, 8); len(tw) > 0 {
+			x, y = s, tw[int(salt%uint64(len(tw)))]
+		}
+	default:
+		if len(s) >= 9 {
+			x, y = gen.FNV32Pair(s[:len(s)-8], salt, int(salt>>40)&1)
+		}
+	}
+	if x == nil || y == nil {
+		return nil, nil
+	}
+	a, b := h2cStep{Fn: fn, Msg: hex.EncodeToString(msg), Dst: hex.EncodeToString(x)}, h2cStep{Fn: fn, Msg: hex.EncodeToString(msg), Dst: hex.EncodeToString(y)}
+	if onMsg {
+		a, b = h2cStep{Fn: fn, Msg: hex.EncodeToString(x), Dst: hex.EncodeToString(dst)}, h2cStep{Fn: fn, Msg: hex.EncodeToString(y), Dst: hex.EncodeToString(dst)}
+	}
+	return &a, &b
+}
+
+// twinSequences are the fixed cases of that shape: oversize and ordinary tags and messages, every kind of twin.
+func twinSequences(fns []string) []caseH2CSeq {
+	var out []caseH2CSeq
+	pat := func(n, k int) []byte {
+		b := make([]byte, n)
+		for i := range b {
+			b[i] = byte(i*13 + k*7 + 5)
+		}
+		return b
+	}
+	for i, fn := range fns {
+		for kind := 0; kind < 4; kind++ {
+			for _, dl := range []int{300, 256, 49, 1000} {
+				if a, b := twinSteps(fn, pat(dl, kind), []byte("abc"), kind, false, uint64(dl+kind)); a != nil {
+					out = append(out, caseH2CSeq{Steps: []h2cStep{*a, *b, *a}, Spare: (i + kind) % 2})
+				}
+			}
+			for _, ml := range []int{40, 120, 700} {
+				if a, b := twinSteps(fn, []byte("QUUX-V01-CS02-with-secp256k1_XMD:SHA-256_SSWU_RO_"), pat(ml, kind), kind, true, uint64(ml+kind)); a != nil {
+					out = append(out, caseH2CSeq{Steps: []h2cStep{*a, *b}})
+				}
+			}
+		}
+	}
+	return out
 }
 
 // shiftedBoundaryPair returns the steps (msg1, DST1), (msg2, DST2) with DST2 = DST1 || len(DST1) || P and msg1 = P || len(DST2) || msg2.
@@ -484,6 +567,16 @@ func runH2CSeq(c caseH2CSeq, o *gen.Obs) error {
 			msgData = st.message()
 		}
 		dstData := st.dstBytes()
+		if i > 0 && st.DstLen == 0 && st.MsgLen == 0 && c.Steps[i-1].DstLen == 0 && c.Steps[i-1].MsgLen == 0 {
+			for _, pr := range [][2][]byte{{gen.HexBytes(c.Steps[i-1].Dst), dstData}, {gen.HexBytes(c.Steps[i-1].Msg), msgData}} {
+				for _, kind := range []string{"crc", "additive", "fnv32a", "fnv32"} {
+					if len(pr[0]) >= 8 && gen.TwinsAgree(pr[0], pr[1], kind, 3) == "" {
+						o.Class("after-checksum-twin:" + kind)
+						o.ClassIf(len(pr[0]) > 255 && len(pr[0]) == len(dstData), "after-checksum-twin-of-an-oversize-dst")
+					}
+				}
+			}
+		}
 		if len(dstData) == 0 {
 			// the documented panic (empty DST), recovered by the caller, st.Rep times: what follows must be unaffected
 			for r := 0; r < max(1, st.Rep); r++ {
@@ -562,12 +655,11 @@ var c08seq = gen.Register(&gen.Check[caseH2CSeq]{
 	Gen:    genH2CSeq([]string{"ro", "nu"}),
 	Run:    runH2CSeq,
 	Fixed: func() []caseH2CSeq {
-		return append(shiftedBoundarySequences([]string{"ro", "nu"}), hugeSequences([]string{"ro", "nu"})...)
+		return append(append(shiftedBoundarySequences([]string{"ro", "nu"}), twinSequences([]string{"ro", "nu"})...), hugeSequences([]string{"ro", "nu"})...)
 	},
 	Required: []string{"oversize-dst-twice", "same-length-overwrite", "huge-message", "after-recovered-panics", "after-failed-random"},
 })
 
-func TestC08Sequence(t *testing.T) { c08seq.Execute(t) }
 
 var c09seq = gen.Register(&gen.Check[caseH2CSeq]{
 	Name:   "C09/sequence",
@@ -575,9 +667,8 @@ var c09seq = gen.Register(&gen.Check[caseH2CSeq]{
 	Gen:    genH2CSeq([]string{"scalar"}),
 	Run:    runH2CSeq,
 	Fixed: func() []caseH2CSeq {
-		return append(shiftedBoundarySequences([]string{"scalar"}), hugeSequences([]string{"scalar"})...)
+		return append(append(shiftedBoundarySequences([]string{"scalar"}), twinSequences([]string{"scalar"})...), hugeSequences([]string{"scalar"})...)
 	},
 	Required: []string{"oversize-dst-twice", "same-length-overwrite", "huge-message", "after-recovered-panics", "after-failed-random"},
 })
 
-func TestC09Sequence(t *testing.T) { c09seq.Execute(t) }
